@@ -317,7 +317,26 @@ func (f CallableFunctionSchema) Call(arguments []any) (any, error) {
 	// Convert to reflect values
 	args := make([]reflect.Value, gotArgs)
 	for i := 0; i < gotArgs; i++ {
+		parameterType := f.Handler.Type().In(i)
+		if arguments[i] == nil {
+			// reflect.ValueOf(nil) is the zero Value, which Call rejects with a panic.
+			switch parameterType.Kind() { //nolint:exhaustive
+			case reflect.Interface, reflect.Pointer, reflect.Map, reflect.Slice, reflect.Func, reflect.Chan:
+				args[i] = reflect.Zero(parameterType)
+				continue
+			}
+			return nil, NewFunctionCallError(fmt.Errorf(
+				"nil given for parameter %d of function with ID '%s', which expects %s",
+				i, f.ID(), parameterType,
+			), false)
+		}
 		args[i] = reflect.ValueOf(arguments[i])
+		if !args[i].Type().AssignableTo(parameterType) {
+			return nil, NewFunctionCallError(fmt.Errorf(
+				"incorrect type of arg %d sent to function with ID '%s'. Expected %s, got %T",
+				i, f.ID(), parameterType, arguments[i],
+			), false)
+		}
 	}
 	result := f.Handler.Call(args)
 	gotReturns := len(result)
